@@ -33,17 +33,21 @@ func Run(r *ev.Run) {
 	r.Rule = "one evaluation = one run of Acra's verifier (ReadLogEntries over 1-3 files + VerifyIntegrityCheck) over a produced log or one edit of it. " +
 		"Logs: (a) one small log per (format, content class, position msg|key|value) of the hostile alphabet, intact-only; (b) seeded logs of 3-40 entries, " +
 		"0-3 chain restarts (ResetChain / process restart appending to the same file), two wirings, entries drawn from the content classes whose intact log verifies; " +
-		"(c) logs with an entry longer than 64 KiB; (d) logs written by concurrent goroutines (intact + wrong key only). Edits per log (b): every byte of every protected line " +
+		"(c) logs with an entry longer than 64 KiB; (d) logs written by concurrent goroutines (intact + wrong key only); " +
+		"(e) log level x empty-chain histories: 15 directed histories (ResetChain / FinalizeChain / process restart right after start, twice and three times in a row, with only info/debug entries in between, killed processes) " +
+		"and seeded ones (3-12 steps, 45 % restarts), entries at error/warn/info/debug, x 3 formats x logging.SetLogLevel(LogDiscard|LogVerbose|LogDebug) x 2 wirings; which step wrote which lines is observed (file size after every call), " +
+		"same oracles and edits as (b) with byte changes at sampled offsets (quick tier: edits for every LogDiscard log and every second other log). Edits per log (b): every byte of every protected line " +
 		"(logs <= 2 KiB; sampled otherwise) x 1-2 replacement bytes, delete / swap (adjacent, distant, same index across chains) / duplicate (adjacent, elsewhere, to the end) of each entry, " +
 		"truncation of an entry and of the file at 8-10 offsets per entry, 8 tag replacements, strip/forge of chain markers, appended bytes, JSON member rewrites " +
 		"(order, white space, value exchange, two members folded into one name, string <-> number/boolean/null of the same spelling, a member moved into / cut out of the neighbouring string value at the separator word). " +
 		"distinct = (format, wiring, edit kind, region of the line, chain position of the entry, content class) of edits that were judged and detected in time, " +
-		"plus (format, content) of intact logs that verified. Edits the property does not require to be detected are run and counted under not_judged:*."
+		"plus (format, content) of intact logs that verified, plus (format, wiring, level, kind of restart at an empty chain) of intact logs of (e) that verified; classes of edits of (e) logs also carry the level. Edits the property does not require to be detected are run and counted under not_judged:*."
 	r.Assumptions = []string{
 		"the property is decided for logging.* as driven by ReadLogEntries/VerifyIntegrityCheck; the acra-log-verifier command itself is not part of this tree",
 		"entry time stamps come from a seeded logical clock installed as a logrus hook (also for the service entries AuditLogHandler writes), so produced logs are a function of the seed",
 		"an honest log is one whose chains are finalised before a new process appends to the file (a killed process followed by a restart fails verification by design: not generated)",
 		"I/O failures while writing the log are out of scope",
+		"the log level is set with logging.SetLogLevel before a history is run and not changed by the history itself (the services set it once at start-up); a history that leaves no protected entry in the log is counted, not judged",
 	}
 	if logging.EndOfAuditLogChainMessage != endMsg {
 		r.Inconclusive("end-of-chain message text differs from the one the generators use: " + logging.EndOfAuditLogChainMessage)
@@ -58,10 +62,20 @@ func Run(r *ev.Run) {
 	}
 	dir := scratchDir("c20")
 
-	broken := phaseAlphabet(r, dir)
-	phaseFull(r, dir, broken)
-	phaseLong(r, dir)
-	phaseConcurrent(r, dir)
+	// wall-clock per phase: information for the notes only, nothing is decided by it
+	phaseWall := map[string]float64{}
+	timed := func(name string, f func()) {
+		t0 := time.Now()
+		f()
+		phaseWall[name] = float64(int(time.Since(t0).Seconds()*10)) / 10
+	}
+	var broken map[string]bool
+	timed("a-alphabet", func() { broken = phaseAlphabet(r, dir) })
+	timed("b-full", func() { phaseFull(r, dir, broken) })
+	timed("c-long", func() { phaseLong(r, dir) })
+	timed("d-concurrent", func() { phaseConcurrent(r, dir) })
+	timed("e-levels", func() { phaseLevels(r, dir, broken) })
+	r.Extra("phase_wall_s", phaseWall)
 
 	for _, f := range formats {
 		r.RequireAtLeast("o1_intact_ok:"+f, int64(r.Pick(20, 200)))
@@ -219,8 +233,13 @@ func genSpec(rng *gen.Rand, id, format string, usable []content) *logSpec {
 }
 
 type fullJob struct {
-	L   *prodLog
-	tag string // extra attribute of the log that goes into signatures ("" normally)
+	L    *prodLog
+	tag  string    // extra attribute of the log that goes into signatures ("" normally)
+	hist *histInfo // phase (e): the observed history (log level, restarts at empty chains); nil elsewhere
+	// intact: 0 = O1 not examined yet; 1 / 2 = already examined (verified / rejected and reported)
+	intact int
+	// editsSkipped (phase (e), quick tier): O1 and O3 only for this log
+	editsSkipped bool
 }
 
 func phaseFull(r *ev.Run, dir string, broken map[string]bool) {
@@ -346,8 +365,15 @@ func runJobs(r *ev.Run, jobs []fullJob, byteBudget int, allEdits bool) {
 }
 
 func logDetail(r *ev.Run, L *prodLog) map[string]interface{} {
-	return map[string]interface{}{"format": L.spec.format, "wiring": L.spec.wiring, "log_id": L.spec.id, "key": ev.FullHex(L.spec.key), "seed": r.Seed,
-		"steps": describeSteps(L.spec), "log": clip(L.data, 20000), "log_hex": hexClip(L.data)}
+	d := map[string]interface{}{"format": L.spec.format, "wiring": L.spec.wiring, "log_id": L.spec.id, "key": ev.FullHex(L.spec.key), "seed": r.Seed,
+		"steps": describeSteps(L.spec), "log": clip(L.data, 20000), "log_hex": hexClip(L.data), "log_level": levelName(L.spec.level)}
+	if L.hist != nil {
+		d["history"] = L.hist.name
+		d["history_steps_as_observed"] = L.hist.labels
+		d["lines_written_per_step"] = L.hist.lines
+		d["restarts_at_empty_chain"] = L.hist.flagString()
+	}
+	return d
 }
 
 func hexClip(b []byte) string {
@@ -375,16 +401,14 @@ func restartKinds(spec *logSpec) string {
 	return strings.Join(ks, "+")
 }
 
-func checkLog(r *ev.Run, v *verifier, j fullJob, byteBudget int, allEdits bool) {
+// checkIntact is O1: "Log output written with integrity protection always verifies with the same key"
+func checkIntact(r *ev.Run, v *verifier, j fullJob) bool {
 	L := j.L
 	format := L.spec.format
-	rng := gen.New(r.Seed, "edits|"+L.spec.id)
 	attr := ""
 	if j.tag != "" {
 		attr = " log=" + j.tag
 	}
-
-	// O1: "Log output written with integrity protection always verifies with the same key"
 	okIntact := true
 	for nf := 1; nf <= 3; nf++ {
 		res := v.run(format, L.spec.key, L.data, nf)
@@ -406,6 +430,13 @@ func checkLog(r *ev.Run, v *verifier, j fullJob, byteBudget int, allEdits bool) 
 			d := logDetail(r, L)
 			d["verifier"] = res.String()
 			d["files"] = nf
+			if j.hist != nil {
+				// the cause is named by configuration and history: format, wiring, log level, which step wrote the line the
+				// verifier rejects (and how many lines that step wrote), which restarts met an empty chain
+				r.Violation(fmt.Sprintf("intact-log-rejected: format=%s wiring=%s level=%s reported-at=%s history=%s", format, L.spec.wiring, levelName(L.spec.level),
+					j.hist.reportedAt(L, res.offset), j.hist.flagString()), d)
+				break
+			}
 			r.Violation(fmt.Sprintf("intact-log-rejected: format=%s wiring=%s restarts=%s reported-at-content=%s%s", format, L.spec.wiring, restartKinds(L.spec), at, attr), d)
 			break
 		}
@@ -417,11 +448,45 @@ func checkLog(r *ev.Run, v *verifier, j fullJob, byteBudget int, allEdits bool) 
 			okIntact = false
 			d := logDetail(r, L)
 			d["verifier"] = res.String()
-			r.Violation(fmt.Sprintf("intact-log-rejected: format=%s wiring=%s restarts=%s (lines fed through a channel)%s", format, L.spec.wiring, restartKinds(L.spec), attr), d)
+			if j.hist != nil {
+				r.Violation(fmt.Sprintf("intact-log-rejected: format=%s wiring=%s level=%s reported-at=%s history=%s (lines fed through a channel)", format, L.spec.wiring, levelName(L.spec.level),
+					j.hist.reportedAt(L, res.offset), j.hist.flagString()), d)
+			} else {
+				r.Violation(fmt.Sprintf("intact-log-rejected: format=%s wiring=%s restarts=%s (lines fed through a channel)%s", format, L.spec.wiring, restartKinds(L.spec), attr), d)
+			}
 		}
 	}
-	if !okIntact {
+	return okIntact
+}
+
+func checkLog(r *ev.Run, v *verifier, j fullJob, byteBudget int, allEdits bool) {
+	L := j.L
+	format := L.spec.format
+	rng := gen.New(r.Seed, "edits|"+L.spec.id)
+	attr := ""
+	if j.tag != "" {
+		attr = " log=" + j.tag
+	}
+	if j.intact == 0 {
+		j.intact = 2
+		if checkIntact(r, v, j) {
+			j.intact = 1
+		}
+	}
+	if j.intact != 1 {
 		return
+	}
+	if len(L.prot) == 0 {
+		// nothing was written with integrity protection (e.g. only suppressed entries and no FinalizeChain): the property says
+		// nothing about this log. The verifier accepted it; counted, not part of the O1 tally
+		r.Count("logs_without_protected_entry", 1)
+		if j.hist != nil {
+			r.Count("levels_logs_without_protected_entry", 1)
+		}
+		return
+	}
+	if j.hist != nil {
+		levelsIntactOK(r, j)
 	}
 	r.Count("o1_intact_ok:"+format, 1)
 	r.Count("o1_full_logs_ok", 1)
@@ -438,9 +503,8 @@ func checkLog(r *ev.Run, v *verifier, j fullJob, byteBudget int, allEdits bool) 
 	}
 	r.SetAdd("chains_per_log", fmt.Sprint(starts))
 	r.Distinct(fmt.Sprintf("intact-full|%s|%s|chains=%d|final=%v", format, L.spec.wiring, starts, L.spec.finalize))
-	r.SampleN("full-"+format, 1, map[string]interface{}{"oracle": "intact log verifies (1-3 files and channel)", "format": format, "wiring": L.spec.wiring, "chains": starts, "lines": len(L.lines), "steps": describeSteps(L.spec), "log": clip(L.data, 1500)})
-	if len(L.prot) == 0 {
-		return
+	if j.hist == nil {
+		r.SampleN("full-"+format, 1, map[string]interface{}{"oracle": "intact log verifies (1-3 files and channel)", "format": format, "wiring": L.spec.wiring, "chains": starts, "lines": len(L.lines), "steps": describeSteps(L.spec), "log": clip(L.data, 1500)})
 	}
 
 	// O3: "verifying with another key makes verification fail" - at the first protected entry
@@ -487,7 +551,12 @@ func checkLog(r *ev.Run, v *verifier, j fullJob, byteBudget int, allEdits bool) 
 	}
 
 	// O2: edits
-	L.genEdits(rng, byteBudget, r.Thorough() && j.tag == "", func(e edit) {
+	if j.hist != nil && j.editsSkipped {
+		r.Count("levels_logs_checked_intact_and_wrong_key_only", 1)
+		return
+	}
+	// phase (e) logs: a seeded half of the cut points and tag replacements per entry (as the thorough tier does for phase (b))
+	L.genEdits(rng, byteBudget, (r.Thorough() && j.tag == "") || j.hist != nil, func(e edit) {
 		if j.tag != "" && !(e.line > longLineIndex(L) && (e.kind == "delete" || e.kind == "byte-change" || e.kind == "swap-adjacent" || e.kind == "duplicate-adjacent" || strings.HasPrefix(e.kind, "replace-tag"))) {
 			return
 		}
@@ -533,6 +602,11 @@ func judgeEdit(r *ev.Run, v *verifier, L *prodLog, rng *gen.Rand, e *edit, attr 
 	res := v.run(format, L.spec.key, data, nf)
 	r.Case()
 	pos, cont := L.pos(e.line)+e.dest, L.content(e.line)
+	if L.hist != nil && cont == "service" && L.views[e.line].start && L.views[e.line].endMarker {
+		// a chain whose first entry is the handler's own end-of-chain entry (the handler writes a preparation entry in front
+		// of it so that this cannot happen): named, because such an entry is a complete chain by itself
+		cont = "service-end-entry-opening-its-chain"
+	}
 	detail := func() map[string]interface{} {
 		d := logDetail(r, L)
 		d["edit"] = map[string]interface{}{"kind": e.kind, "region": e.region, "variant": e.note, "original_line_index": e.line, "position": pos, "content": cont,
@@ -576,6 +650,11 @@ func judgeEdit(r *ev.Run, v *verifier, L *prodLog, rng *gen.Rand, e *edit, attr 
 	default:
 		r.Count("o2_detected:"+format, 1)
 		r.Count("o2_detected_kind:"+e.kind, 1)
+		lv := ""
+		if L.hist != nil {
+			r.Count("levels_o2_detected:"+format, 1)
+			lv = "|level=" + levelName(L.spec.level)
+		}
 		// where it was noticed: at the changed line itself or at a later entry
 		changedEnd := 0
 		for i := 0; i <= e.line && i < len(e.lines); i++ {
@@ -591,7 +670,7 @@ func judgeEdit(r *ev.Run, v *verifier, L *prodLog, rng *gen.Rand, e *edit, attr 
 		if p := strings.IndexByte(cc, '@'); p >= 0 && !strings.HasPrefix(e.kind, "byte-change") {
 			cc = "any"
 		}
-		r.Distinct(fmt.Sprintf("%s|%s|%s|%s|%s|%s", format, L.spec.wiring, e.kind, e.region, pos, cc))
+		r.Distinct(fmt.Sprintf("%s|%s|%s|%s|%s|%s%s", format, L.spec.wiring, e.kind, e.region, pos, cc, lv))
 		r.SampleN("edit-"+format+"-"+e.kind, 1, map[string]interface{}{"oracle": "edit rejected no later than the next protected entry", "format": format, "edit": e.kind, "region": e.region, "variant": e.note, "position": pos, "content": cont,
 			"original_line": clip(L.lines[e.line], 400), "verifier": res.String(), "bound_offset": e.limitOffset()})
 	}
@@ -607,7 +686,7 @@ func sigContent(e *edit, cont string) string {
 		}
 		return "any"
 	}
-	for _, p := range []string{"end-message", "prepare-message", "long-70k"} {
+	for _, p := range []string{"end-message", "prepare-message", "long-70k", "service-end-entry-opening-its-chain"} {
 		if strings.HasPrefix(cont, p) {
 			return cont
 		}
